@@ -445,7 +445,7 @@ pub mod fnv1a64 {
              inserts=[("loop:0:before", "let ghost s0 = \u00a7acc\u00a7;"),
                       ("loop:0:end", "proof { reveal(fnv_step); assert(\u00a7seq\u00a7@.subrange(0, \u00a7ctr\u00a7 as int).drop_last() =~= \u00a7seq\u00a7@.subrange(0, \u00a7ctr\u00a7 as int - 1)); }"),
                       ("loop:0:after", "proof { assert(\u00a7seq\u00a7@.subrange(0, \u00a7ctr\u00a7 as int) =~= \u00a7seq\u00a7@); if \u00a7seq\u00a7@.len() == 1 { fnv1(s0, \u00a7seq\u00a7@[0]); assert(\u00a7seq\u00a7@ =~= seq![\u00a7seq\u00a7@[0]]); } }")],
-             loops={0: """            invariant \u00a7ctr\u00a7 <= \u00a7seq\u00a7.len(), \u00a7acc\u00a7 == fnv(s0, \u00a7seq\u00a7@.subrange(0, \u00a7ctr\u00a7 as int)), Fnv1a64Hasher::PRIME == 0x0000_0100_0000_01b3u64,
+             loops={0: """            invariant \u00a7lenfact\u00a7, \u00a7ctr\u00a7 <= \u00a7seq\u00a7.len(), \u00a7acc\u00a7 == fnv(s0, \u00a7seq\u00a7@.subrange(0, \u00a7ctr\u00a7 as int)), Fnv1a64Hasher::PRIME == 0x0000_0100_0000_01b3u64,
             decreases \u00a7seq\u00a7.len() - \u00a7ctr\u00a7"""},
              obls=["C16.V.fnv.hash_update"]),
         dict(kind="fn", file=F, within=[r"^mod fnv1a64$"], name="hash_update_str", qual="postcard_schema::key::hash::fnv1a64::hash_update_str",
